@@ -69,7 +69,8 @@ Theorem C02_binary_chains : forall toks : list token_type,
 Proof. exact c02_binary_chains. Qed.
 Print Assumptions C02_binary_chains.
 
-(* which operators the chains range over: all 38 binary operator tokens, among them the
+(* which operators the chains range over: all 39 binary operator tokens (the 38 operators and
+   the expression separator `;`, the loosest of all), among them the
    ordinary arithmetic / comparison / logic operators, the right-to-left pair, and also the
    comma list, the conditional forms, access and the apply forms *)
 Example C02_chain_operators :
@@ -80,8 +81,8 @@ Example C02_chain_operators :
      TT_BitwiseAnd; TT_BitwiseOr; TT_BitwiseXor; TT_BitwiseLeftShift; TT_BitwiseRightShift;
      TT_Range; TT_StartExclusiveRange; TT_EndExclusiveRange; TT_ExclusiveRange; TT_Concatenation; TT_TypeCast;
      TT_Comma; TT_JumpIfTrue; TT_JumpIfFalse; TT_ElseJump; TT_Period;
-     TT_Apply; TT_ApplyTo; TT_PartialApply; TT_InfixIdentifier] = true /\
-  length (filter is_binary_tok all_token_type) = 38 /\
+     TT_Apply; TT_ApplyTo; TT_PartialApply; TT_InfixIdentifier; TT_ExpressionSeparator] = true /\
+  length (filter is_binary_tok all_token_type) = 39 /\
   length (filter is_value_tok all_token_type) = 9.
 Proof. vm_compute. repeat split; reflexivity. Qed.
 
@@ -240,6 +241,32 @@ Example C02_ex_curly :
   operator_expression [TT_StartExpression; TT_Number; TT_EndExpression] = true.
 Proof. vm_compute. repeat split; reflexivity. Qed.
 
+(* the expression separator `;`: the loosest binary operator at top level and directly inside
+   { } -- `{ a + 1 ; -b } ~ 5 ; c` -- but not an operator directly inside round brackets (there
+   the parser treats it as whitespace, so the reference is undefined), nor leading / trailing /
+   doubled *)
+Example C02_ex_separator :
+  operator_expression [TT_StartExpression; TT_Identifier; TT_PlusSign; TT_Number; TT_ExpressionSeparator;
+                       TT_Opposite; TT_Identifier; TT_EndExpression; TT_Whitespace; TT_ApplyTo; TT_Whitespace; TT_Number;
+                       TT_ExpressionSeparator; TT_Identifier] = true /\
+  pratt [TT_StartExpression; TT_Identifier; TT_PlusSign; TT_Number; TT_ExpressionSeparator;
+         TT_Opposite; TT_Identifier; TT_EndExpression; TT_Whitespace; TT_ApplyTo; TT_Whitespace; TT_Number;
+         TT_ExpressionSeparator; TT_Identifier] =
+  Some (RBin D_ExpressionSeparator (Some 12)
+          (RBin D_ApplyTo (Some 9)
+             (RGroup BCurly 0
+                (RBin D_ExpressionSeparator (Some 4)
+                   (RBin D_Addition (Some 2) (RAtom D_Identifier 1) (RAtom D_Number 3))
+                   (RPre D_Opposite 5 (RAtom D_Identifier 6))))
+             (RAtom D_Number 11))
+          (RAtom D_Identifier 13)) /\
+  pratt [TT_StartGroup; TT_Number; TT_ExpressionSeparator; TT_Number; TT_EndGroup] = None /\
+  operator_expression [TT_StartGroup; TT_Number; TT_ExpressionSeparator; TT_Number; TT_EndGroup] = false /\
+  pratt [TT_StartGroup; TT_StartExpression; TT_Number; TT_ExpressionSeparator; TT_Number; TT_EndExpression; TT_EndGroup] <> None /\
+  pratt [TT_Number; TT_ExpressionSeparator] = None /\
+  pratt [TT_Number; TT_ExpressionSeparator; TT_ExpressionSeparator; TT_Number] = None.
+Proof. vm_compute. repeat split; try reflexivity; discriminate. Qed.
+
 (* (f) THE FULL STATEMENT, for every token list whatsoever: whenever the reference
    precedence-climbing parser over the pinned table is defined on [toks] (it is defined
    exactly on the operator expressions of (e), possibly surrounded by whitespace; any token
@@ -267,6 +294,7 @@ Example C02_ex_full_nonvacuous :
 Proof. vm_compute. repeat split; reflexivity. Qed.
 
 (* (g) what C02_full does not say: nothing about token lists on which the reference is
-   undefined -- side effects [ ], separators (also inside { }), annotations, empty { } (for
+   undefined -- side effects [ ], blank-line separators, `;` inside ( ) or leading / trailing /
+   doubled, annotations, empty { } (for
    those the bounded theorems (b) and the differential runs of the check remain the
    evidence), and nothing about what parse does with non-expressions (that is C03/C04). *)
